@@ -122,11 +122,11 @@ theorem plurality_monotone_new (votes : Votes) (hn : (keys votes).Nodup) (w : Ca
 /-! ### positional rules (Borda, Dowdall, Geometric, ModifiedBorda, FixedTop) -/
 
 /-- the rank scorers covered: the five generated ones with their documented parameter ranges
-    (Borda base ≥ 0, geometric base ≥ 1) -/
+    (Borda base ≥ 0, geometric base ≥ 1, SequenceBased with a non-increasing non-negative sequence) -/
 def ScorerOK : Scorer → Prop
   | .borda base => 0 ≤ base
   | .geometric base => 1 ≤ base
-  | .sequence _ => False
+  | .sequence seq => SeqOK seq
   | _ => True
 
 /-- the generated score lists are non-increasing, non-negative and compatible with a ballot growing by one place -/
@@ -140,7 +140,7 @@ theorem scorer_monotone (sc : Scorer) (h : ScorerOK sc) :
     exact ⟨accepts_of _ (by simp; omega), fun nC => geometric_mono base nC nC hb⟩
   | modifiedBorda => exact ⟨accepts_of _ (by simp), fun nC => modifiedBorda_mono nC nC⟩
   | fixedTop top => exact ⟨accepts_of _ (by simp), fun nC => fixedTop_mono top nC nC⟩
-  | sequence seq => exact absurd h (by simp [ScorerOK])
+  | sequence seq => exact ⟨accepts_of _ (by simp), fun nC => sequence_mono seq h nC nC⟩
 
 /-- **Positional rules, single ballot improvement.**  For every profile of well-formed ballots: if `w` is the sole
     winner and one unit of weight of ballot `b` is replaced by `b` with `w` lifted, `w` is still the sole winner. -/
@@ -641,6 +641,7 @@ def exProfile : RProfile :=
 example : ∀ x ∈ dkeys exProfile, BallotOK x := by decide +kernel
 example : ScorerOK (.borda 1) ∧ ScorerOK .dowdall ∧ ScorerOK (.geometric 2) ∧ ScorerOK .modifiedBorda ∧
     ScorerOK (.fixedTop 2) := by simp [ScorerOK]
+example : ScorerOK (.sequence [10, 4, 4, 1]) := by unfold ScorerOK SeqOK; decide +kernel
 example : evalPositional .dowdall exProfile = .ok [Slot.cand 0] := by decide +kernel
 example : evalPositional .modifiedBorda exProfile = .ok [Slot.cand 0] := by decide +kernel
 -- the shared-rank ballot (1, {0,2}): lifting 0 to the top gives (0, 1, 2), one place more
